@@ -20,7 +20,7 @@ LEVEL_TEXT = {
     'C12': 'Translation validation of generated multi-package programs whose package-level variables depend on each other across files and packages and on external values: the synthesized initialisers (dependencies first, variables in dependency order, init functions in source order, once) are executed on llgo\'s IR of every package and compared, as external-call traces and results, with Go-specification initialisation order (go/ssa init functions) for every external value.',
     'C14': 'Translation validation of naming-stress multi-package programs (same-named methods / functions / packages, nested closures in methods, generic functions, types and methods instantiated in several packages with local, aliased and composite type arguments, descriptor near-misses) plus a solver-checked merge-equivalence: every symbol that several modules define must be mergeable and its definitions equivalent (function bodies compared on arbitrary arguments, constant data structurally).',
     'C01': 'Translation validation of a corpus of core-language functions (branches, loops, labelled jumps, switch, multiple assignment, structs/arrays by value and through pointers, closures, methods, embedding, interfaces, type switches, generics, every range form, evaluation order, strings/slices): each function is executed under Go-specification semantics on its own unmodified go/ssa build and on the IR llgo\'s real pipeline emits (both before and after the default C-ABI transformation), with llgo\'s runtime entry points executed from their Go source; the solver proves equal results / panics / external-call traces for all argument values within the loop bound.',
-    'C03': 'Translation validation of 140 one-statement functions bracketed by trace calls (index / slice / slice-to-array / make forms x every index type, nil dereferences, array lengths at index-type maxima) plus bounded symbolic verification of the runtime checks NewSlice3, StringSlice, MakeSlice and Assert* for all 64-bit argument values.',
+    'C03': 'Translation validation of 147 one-statement functions bracketed by trace calls (index / slice / slice-to-array / make forms x every index type, nil dereferences, array lengths at index-type maxima) plus bounded symbolic verification of the runtime checks NewSlice3, StringSlice, MakeSlice and Assert* for all 64-bit argument values.',
     'C04': 'Translation validation of defer/panic/recover shapes (7 hand-written + 33 generated from a defer-shape grammar; 300 in the thorough tier): llgo\'s setjmp/longjmp + indirectbr defer machinery and its real runtime.Panic/Rethrow/Recover are executed symbolically against Go-specification defer semantics; deferred-call order and arguments (trace), named results and final panic state must agree for all inputs.',
     'C10': 'Bounded model checking of the real z_chan.go under a symbolic scheduler: every interleaving at lock / condition-wait granularity (preemption-bounded, spurious wake-ups in the thorough tier) of 2-3 threads performing send / receive / close / select on channels of capacity 0-1, with symbolic element values; verdicts: delivered exactly once, ok flags, select commits a ready case, no deadlock while operations could complete.',
     'C11': 'Bounded model checking under the same symbolic scheduler of llgo\'s semaphore (semaAcquire/semaRelease), notify list (the primitives under sync.Mutex/Cond/WaitGroup) and sync/atomic.Value: no lost wake-up, mutual exclusion, Wait returns only for a covered ticket, Swap/CompareAndSwap linearizable.',
@@ -38,7 +38,7 @@ NOTE = {
     'C12': 'Four program shapes (chain, diamond, pass-through package, function-valued initialisers); the entry module that calls runtime.init / main.init (internal/build main_module.go) is outside: the check starts at the root package initialiser.',
     'C14': 'Three program shapes; linkname/export directives and C-callback wrappers are outside; equivalence of descriptor data is structural (private string constants compared by content).',
     'C01': 'The quantifier all programs is met only through the corpus (about 55 functions); loop bound 8; LLVM 14 binding as IR producer; optimisation level O2, linking, process exit codes and gc/nogc configuration are outside. Known finding: ssa_order_fix.',
-    'C03': 'Signal delivery (SIGSEGV re-arming), map panics and type-assertion panics are not part of this corpus; channel panics (send on / close of a closed or nil channel, plain and in select) are covered for one goroutine through 9 forms against an oracle channel model; nil faults are modelled as accesses inside the unmapped 1 MiB nil region.',
+    'C03': 'Signal delivery (SIGSEGV re-arming) is not modelled; nil-map writes and failed type assertions (llgo raises the latter with a string value, not a runtime.Error - the property only asks for a panic) are covered by 7 forms; channel panics (send on / close of a closed or nil channel, plain and in select) are covered for one goroutine through 9 forms against an oracle channel model; nil faults are modelled as accesses inside the unmapped 1 MiB nil region.',
     'C04': 'Goexit, goroutine-exit defers and O2 are outside; the corpus is fixed (not seeded) because llgo\'s defer lowering has known defects (two recorded known findings).',
     'C10': 'Preemption bound 2 (3 thorough), no spurious wake-ups in quick; >= 4 threads, timers and the compiler lowering of select/chan ops are outside. Known finding: close racing an unbuffered hand-off.',
     'C11': 'The standard library sync types on top of these primitives, goroutine start (go statement lowering) and atomics lowering are outside this check; preemption bound 2 (3 thorough).',
